@@ -503,6 +503,9 @@ func refFromFile(f *sFile, d []byte, id []byte) (*refSec, bool) {
 		return nil, false
 	}
 	s := &refSec{ID: id, EncryptMetadata: true}
+	if b, ok := enc["EncryptMetadata"].(Boolean); ok && !bool(b) {
+		s.EncryptMetadata = false
+	}
 	V, _ := enc["V"].(Integer)
 	R, _ := enc["R"].(Integer)
 	P, okP := enc["P"].(Integer)
@@ -725,4 +728,33 @@ func Verif_C10_many_strings() {
 		pt, okd = s.decrypt(fk, stmRef.Number(), stmRef.Generation(), ct)
 		verifrt.Assert(okd && bytes.Equal(pt, filler), "reference decrypts the string in the stream dictionary")
 	}
+}
+
+// Verif_C10_file_key: Algorithm 2 (file encryption key of revisions 2-4)
+// against the reference, for every revision, both key lengths, encrypted and
+// plaintext metadata.  /P is symbolic for revision 2 (one MD5, executed
+// symbolically); revisions 3 and 4 add fifty more MD5 rounds and use a list of
+// permission values.
+func Verif_C10_file_key() {
+	R := 2 + verifrt.Choice("revision", 3)
+	keyLen := 5
+	if R >= 3 && verifrt.Choice("longkey", 2) == 1 {
+		keyLen = 16
+	}
+	plain := verifrt.Choice("plaintextmetadata", 2) == 1
+	var P uint32
+	if R == 2 {
+		P = verifrt.Uint32("P")
+	} else {
+		P = []uint32{0xffffffff, 0xfffff0c0, 0xfffffffc, 0x00000000}[verifrt.Choice("P", 4)]
+	}
+	O := []byte("0123456789abcdefghijklmnopqrstuv")
+	ID := []byte("0123456789abcdef")
+	pw := []byte("user")
+	sec := &stdSecHandler{R: R, ID: ID, O: O, P: P, keyBytes: keyLen, unencryptedMetadata: plain}
+	got := sec.computeFileEncyptionKey(refPadPw(pw))
+	ref := &refSec{R: R, ID: ID, O: O, P: int32(P), keyLen: keyLen, EncryptMetadata: !plain}
+	want := ref.fileKey(pw)
+	verifrt.Cover("keys computed")
+	verifrt.Assert(verifrt.Equal(got, want), "file encryption key is Algorithm 2 of ISO 32000")
 }
